@@ -355,7 +355,10 @@ EXTRA = {
            "is true of the model's own run.",
     "C07": " c07_spec_of_model / c07_spec_of_model_strict / c07_known_class_delimited: for all histories over every operation except OpCustom "
            "(user-written collectors) inside the executable domain, spec_c07 is true of the model's own run unless collectors of "
-           "different kinds share a name, and then everything but the family type still holds (known_mixed_kinds).",
+           "different kinds share a name, and then everything but the family type still holds (known_mixed_kinds). The *_custom versions "
+           "(Proofs/C07SpecCustom*.v, C14SpecCustom.v) extend all of them to histories with user-written collectors that expose no families "
+           "(domain dom07c / dom14c, which contains the old one) - the overlap scenarios of C14's generator; the evidence counts the scenarios of "
+           "each run inside / outside that domain.",
     "C08": " c08_spec_model: for EVERY history (< 2^63 operations, no FNV collision among the label tuples it uses) the executable spec written from "
            "the property text is true of the model's own run (full operation language, nothing partial).",
     "C09": " c09_spec_model (full operation language, hypothesis only 'Opts.const_labels is a map'): the executable spec - every constructor answers "
